@@ -52,6 +52,7 @@ func genC17(tier string, seed int64) []Case {
 	add(c17Desc{Kind: "copy", N: 0, Salt: "enumerated"})
 	add(c17Desc{Kind: "reset", N: 0, Salt: "enumerated"})
 	add(c17Desc{Kind: "wakeup", N: 0, Salt: "enumerated"})
+	add(c17Desc{Kind: "server", N: 0, Salt: "enumerated"})
 	nr := 6
 	if tier == "thorough" {
 		nr = 120
@@ -74,6 +75,8 @@ func runC17(c *Ctx, d c17Desc) {
 		runC17Rate(c, d)
 	case "wakeup":
 		runC17Wakeup(c, d)
+	case "server":
+		runC17Server(c, d)
 	}
 }
 
@@ -82,6 +85,20 @@ func runC17(c *Ctx, d c17Desc) {
 type diReq struct {
 	MaxPayload, Mode, Rate, Burst string // "" = header absent
 	BadToken                      string // "", id, rtoken, version, expired, custhdr
+	Cust                          string // customer headers: "" = header absent, "full", "cid" (identity id only), "ctx" (client context only)
+}
+
+// custOf: the customer header fields a request of this shape carries (a function of the current request only).
+func custOf(kind string) directinvoke.CustomerHeaders {
+	switch kind {
+	case "full":
+		return directinvoke.CustomerHeaders{CognitoIdentityID: "id-full", CognitoIdentityPoolID: "pool-full", ClientContext: "ctx-full"}
+	case "cid":
+		return directinvoke.CustomerHeaders{CognitoIdentityID: "id-only"}
+	case "ctx":
+		return directinvoke.CustomerHeaders{ClientContext: "ctx-only"}
+	}
+	return directinvoke.CustomerHeaders{}
 }
 
 type diExpect struct {
@@ -180,6 +197,8 @@ func doReceive(q diReq) (*interop.Invoke, error, *httptest.ResponseRecorder) {
 	r.Header.Set(directinvoke.VersionIDHeader, ver)
 	if q.BadToken == "custhdr" {
 		r.Header.Set(directinvoke.CustomerHeadersHeader, "!!!not-base64-json")
+	} else if q.Cust != "" {
+		r.Header.Set(directinvoke.CustomerHeadersHeader, custOf(q.Cust).Dump())
 	}
 	set := func(h, v string) {
 		if v != "" {
@@ -217,6 +236,8 @@ func checkReceive(c *Ctx, q diReq, hist []diReq) bool {
 	}
 	gotTr := w.Header().Values("Trailer")
 	ok = c.Check(strings.Join(gotTr, ",") == strings.Join(want.Trailers, ","), "trailers_declared", "C17/parse/trailer-declaration", fmt.Sprintf("declared trailers %v, expected %v: %s", gotTr, want.Trailers, desc), nil) && ok
+	wc := custOf(q.Cust)
+	ok = c.Check(inv.CognitoIdentityID == wc.CognitoIdentityID && inv.CognitoIdentityPoolID == wc.CognitoIdentityPoolID && inv.ClientContext == wc.ClientContext, "customer_headers_stateless", "C17/parse/sticky-customer-headers", fmt.Sprintf("parsed customer fields (%q, %q, %q), the request carries (%q, %q, %q): %s", inv.CognitoIdentityID, inv.CognitoIdentityPoolID, inv.ClientContext, wc.CognitoIdentityID, wc.CognitoIdentityPoolID, wc.ClientContext, desc), nil) && ok
 	ok = c.Check(inv.ID == "inv-1" && inv.ReservationToken == "rt-1" && inv.TraceID == "trace-x" && w.Header().Get(directinvoke.InvokeIDHeader) == "inv-1", "token_fields", "C17/parse/token-fields", "parsed record / echoed headers do not match the reservation token", nil) && ok
 	return ok
 }
@@ -227,11 +248,12 @@ var diValues = map[string][]string{
 	"rate":  {"", "", "32768", "67108864", "32767", "67108865", "x", "2097152"},
 	"burst": {"", "", "32768", "67108864", "32767", "67108865", "-1", "6291456"},
 	"bad":   {"", "", "", "", "", "id", "rtoken", "version", "expired", "custhdr"},
+	"cust":  {"", "", "", "full", "cid", "ctx"},
 }
 
 func randReq(r *rand.Rand) diReq {
 	p := func(k string) string { v := diValues[k]; return v[r.Intn(len(v))] }
-	return diReq{MaxPayload: p("max"), Mode: p("mode"), Rate: p("rate"), Burst: p("burst"), BadToken: p("bad")}
+	return diReq{MaxPayload: p("max"), Mode: p("mode"), Rate: p("rate"), Burst: p("burst"), BadToken: p("bad"), Cust: p("cust")}
 }
 
 func runC17History(c *Ctx, d c17Desc) {
@@ -241,6 +263,7 @@ func runC17History(c *Ctx, d c17Desc) {
 		interesting := []diReq{
 			{Mode: "Streaming"}, {Mode: "streaming", Rate: "32768", Burst: "32768"}, {MaxPayload: "-1"}, {MaxPayload: "5"}, {Mode: "Buffered", MaxPayload: "0"},
 			{MaxPayload: "-1", Rate: "67108864"}, {Mode: "bogus"}, {MaxPayload: "abc"}, {Mode: "Streaming", Rate: "1"}, {Mode: "Streaming", Burst: "1"}, {BadToken: "id", Mode: "Streaming"},
+			{Cust: "full"}, {Cust: "cid", Mode: "Streaming"}, {Cust: "ctx"},
 		}
 		for _, a := range interesting {
 			for _, b := range append([]diReq{{}}, interesting...) {
@@ -694,4 +717,112 @@ func runC17Wakeup(c *Ctx, d c17Desc) {
 	c.Counter("wakeup_cases", n)
 	c.SetTrace("wakeup", true)
 	c.SetSample(map[string]interface{}{"cases": n, "delayed_waits": h})
+}
+
+// ---- (e) the interop server's own part: one answer per direct invocation ----
+//
+// A direct invoke through the real in-process stack: reservation, ReceiveDirectInvoke against the reservation
+// token, FastInvoke(direct), the runtime's /response copied by the server in direct mode - and then, in half of
+// the scenarios, the runtime exits, so that the platform produces its own error answer for the SAME invocation.
+// What the caller holds must stay what the copy wrote: the (cut) bytes of the runtime, classified once.
+func runC17Server(c *Ctx, d c17Desc) {
+	for _, sc := range []struct {
+		name      string
+		limit     int
+		size      int
+		mode      string
+		exitAfter bool
+	}{
+		{"oversized-buffered-then-exit", 100, 110, "", true},
+		{"oversized-streaming-then-exit", 100, 110, "streaming", true},
+		{"oversized-buffered", 1000, 1001, "", false},
+		{"complete-streaming", 1000, 1000, "streaming", false},
+		{"complete-buffered-then-exit", 1000, 10, "", true},
+		{"complete-streaming-then-exit", 64, 64, "streaming", true},
+	} {
+		sc := sc
+		w, err := NewWorld(vh.Config{TimeoutMs: 5000})
+		if err != nil {
+			c.Inconclusive("harness: " + err.Error())
+			return
+		}
+		body := make([]byte, sc.size)
+		for i := range body {
+			body[i] = byte('a' + i%26)
+		}
+		w.RtPlan = func(gen int, p *vh.Proc) vh.ExecPlan {
+			return vh.ExecPlan{Behave: w.RtLoop(RtOpts{Handle: func(p *vh.Proc, pt *vh.Party, n int, ev *vh.Resp) *vh.Exit {
+				pt.Respond(ev.ReqID(), body, map[string]string{"Content-Type": "application/octet-stream"})
+				if sc.exitAfter && gen == 1 {
+					return &vh.Exit{Code: 1}
+				}
+				return nil
+			}})}
+		}
+		w.E.Init()
+		func() {
+			defer w.Close()
+			rr, err := w.E.Srv.Reserve("", "", "")
+			if err != nil || w.E.Srv.AwaitInitialized() != nil {
+				c.Inconclusive("harness: reservation / init failed")
+				return
+			}
+			tok := rr.Token
+			req := httptest.NewRequest("POST", "/invoke/"+tok.ReservationToken, bytes.NewReader([]byte(`{"direct":true}`)))
+			rctx := chi.NewRouteContext()
+			rctx.URLParams.Add("reservationtoken", tok.ReservationToken)
+			req = req.WithContext(context.WithValue(req.Context(), chi.RouteCtxKey, rctx))
+			req.Header.Set(directinvoke.InvokeIDHeader, tok.InvokeID)
+			req.Header.Set(directinvoke.VersionIDHeader, tok.VersionID)
+			req.Header.Set(directinvoke.MaxPayloadSizeHeader, fmt.Sprint(sc.limit))
+			if sc.mode != "" {
+				req.Header.Set(directinvoke.InvokeResponseModeHeader, sc.mode)
+			}
+			rec := &recFlusher{}
+			inv, err := directinvoke.ReceiveDirectInvoke(rec, req, tok)
+			if !c.Check(err == nil, "direct_request_accepted", "C17/server/request-refused/"+sc.name, "a direct invoke request matching the reservation token was refused", fmt.Sprint(err)) {
+				return
+			}
+			done := make(chan error, 1)
+			go func() {
+				if err := w.E.Srv.FastInvoke(rec, inv, true); err != nil {
+					done <- err
+					return
+				}
+				_, err := w.E.Srv.AwaitRelease()
+				done <- err
+			}()
+			var relErr error
+			select {
+			case relErr = <-done:
+			case <-time.After(12 * time.Second):
+				c.Check(false, "copy_terminates", "C17/server/hang/"+sc.name, "the direct invocation never completed", nil)
+				c.SetSample(sampleLog(w, 120))
+				return
+			}
+			if relErr != nil {
+				rd := make(chan struct{})
+				go func() { w.E.Srv.Reset("failure", 2000); close(rd) }()
+				select {
+				case <-rd:
+				case <-time.After(10 * time.Second):
+					c.Check(false, "copy_terminates", "C17/server/reset-hang/"+sc.name, "the reset after the failed direct invocation never returned", nil)
+					return
+				}
+			}
+			time.Sleep(20 * time.Millisecond)
+			want, cls := body, directinvoke.EndOfResponseComplete
+			if sc.size > sc.limit {
+				want, cls = body[:sc.limit+1], directinvoke.EndOfResponseOversized
+			}
+			got := rec.body()
+			c.Check(bytes.Equal(got, want), "one_answer_per_direct_invocation", fmt.Sprintf("C17/server/bytes/%s/%d-vs-%d", sc.name, len(got), len(want)), fmt.Sprintf("the caller of a direct invocation holds %d bytes, the runtime's (cut) response has %d: %q", len(got), len(want), trunc(got)), nil)
+			rec.mu.Lock()
+			tr := rec.Header().Get(directinvoke.EndOfResponseTrailer)
+			rec.mu.Unlock()
+			c.Check(tr == cls, "classification", fmt.Sprintf("C17/server/classification/%s/%s-vs-%s", sc.name, tr, cls), fmt.Sprintf("End-Of-Response %q, expected %q", tr, cls), nil)
+			c.Counter("server_direct_invocations", 1)
+		}()
+	}
+	c.SetTrace("server"+d.Salt, true)
 }
